@@ -65,6 +65,11 @@ Inputs ==
          IN {[tree |-> Bundle(<<Spend(P1, Z1, Coin1Amt, L(<<c1, c2>>))>>), flags |-> f, max |-> BigMax, clvm |-> Zero, vis |-> "mempool",
               consts |-> Doms, validKeys |-> {GenKey}] : c1 \in M, c2 \in M,
               f \in {{"DONT_VALIDATE_SIGNATURE"}, {"DONT_VALIDATE_SIGNATURE", "COST_CONDITIONS", "STRICT_ARGS_COUNT"}}}
+    [] Mode = "locks3" ->
+         \* three locks of one family on one spend, every order: folding to min / max and conflict detection
+         {[tree |-> Bundle(<<Spend(P1, Z1, Coin1Amt, L(t))>>), flags |-> f, max |-> BigMax, clvm |-> Zero, vis |-> "mempool",
+           consts |-> Doms, validKeys |-> {GenKey}] : t \in LockTriplesAll,
+           f \in {{"DONT_VALIDATE_SIGNATURE"}, {"DONT_VALIDATE_SIGNATURE", "COST_CONDITIONS", "STRICT_ARGS_COUNT"}}}
     [] Mode = "big" ->
          \* amounts near 2^64: totals that only fit in 128 bits, reserve-fee overflow
          LET Two63 == <<0, 128, 0, 0, 0, 0, 0, 0, 0>>
